@@ -569,6 +569,12 @@ func C02(c *core.Ctx) {
 		addressing(c, "R5", n)
 	}
 	handedOn(c, "R5", []string{"PDR", "FAR"})
+	handlerDispatch(c, "R5", map[string]bool{"PDR": true, "FAR": true})
+	// "id not in this session" excuses an Update from reaching the driver only if the session's id sets are
+	// accurate: ids are forgotten only after a successful Remove (C01 R4)
+	shareFrom(c, "C01", "R5", func(o *core.Obligation) bool {
+		return o.Rule == "R4" && strings.Contains(o.Key, "/R4/forget-") && (strings.Contains(o.Key, ":PDR:") || strings.Contains(o.Key, ":FAR:"))
+	}, 2, "places that forget a PDR/FAR id")
 	// R7: SDF filter sides: the in-place uplink swap works on an object of its own (shared with C16 R4)
 	flowDescOwned(c, "R7")
 	// "SDF filters (source and destination swapped for uplink PDRs)": the swap rules of C16 R4 seen from here
@@ -580,6 +586,11 @@ func C02(c *core.Ctx) {
 			if o.Rule == "R4" && strings.Contains(o.Key, "/R4/swap") {
 				n++
 				c.Check("R7", "sdf-"+o.Key[strings.Index(o.Key, "/R4/")+4:], token.NoPos, o.OK, o.Desc+" (C16 R4)")
+			}
+			// which side each flow-description attribute is taken from (C16 R3)
+			if o.Rule == "R3" {
+				n++
+				c.Check("R7", "sdf-"+o.Key[strings.Index(o.Key, "/R3/")+4:], token.NoPos, o.OK, o.Desc+" (C16 R3)")
 			}
 		}
 		c.Floor("R7", n, 6, "uplink swap obligations")
@@ -638,6 +649,10 @@ func C03(c *core.Ctx) {
 		addressing(c, "R5", n)
 	}
 	handedOn(c, "R5", []string{"QER", "URR", "BAR"})
+	handlerDispatch(c, "R5", map[string]bool{"QER": true, "URR": true, "BAR": true})
+	shareFrom(c, "C01", "R5", func(o *core.Obligation) bool {
+		return o.Rule == "R4" && strings.Contains(o.Key, "/R4/forget-") && (strings.Contains(o.Key, ":QER:") || strings.Contains(o.Key, ":URR:") || strings.Contains(o.Key, ":BAR:"))
+	}, 3, "places that forget a QER/URR/BAR id")
 	c.Floor("R2", c.Counts["R2"], 50, "QER/URR/BAR attribute rows compared")
 	if m := c.P.Method(pkgReport, "ReportingTrigger", "Unmarshal"); m != nil {
 		renameRule(c, "R3", "R6", func() {
